@@ -778,6 +778,336 @@ theorem cubic_jac_eq_implicit :
   · simp only [ED.jac, ED.der, ED.val, cardano_chain_eq_implicit _ _ _ 1 h1 h2, and_self]
 
 
+
+/-! ## Deepening round D: the model function of the four cubic models HAS the derivative the code computes
+
+  The hypotheses of `cubic_implicit_deriv` / `X.row_*` (a differentiable branch of simple roots exists) are
+  ESTABLISHED for the branch the code itself evaluates: off the band (`det ≠ 0`, no clamp active) the number
+  `calc_cubic_root(a, b, c, k)` is a simple root of the cubic (`trig_root_is_simple_root`,
+  `cardano_root_is_simple_root`), it depends differentiably on the coefficients (composition of `√`, `∛`,
+  `arcsin`, `sin`, `cos` away from their singular points), hence its derivative along any differentiable
+  coefficient curve is the implicit-function value — which is what `calc_cubic_root_derivatives` returns
+  (`cardano_chain_eq_implicit`). -/
+
+/-- `det > 0`: the root Cardano's formula returns is a simple root of the cubic (no band hypothesis) -/
+theorem cardano_root_is_simple_root (a b c : ℝ) (k : Nat) (hdet : 0 < cubDet a b c) :
+    cubicPoly a b c (calcCubicRoot a b c k) = 0 ∧ cubicPoly' a b (calcCubicRoot a b c k) ≠ 0 :=
+  cardano_root_simple a b c k hdet
+example : (0:ℝ) < cubDet (0:ℝ) 3 0 := by simp only [cubDet, cubP, cubQ]; norm_num
+
+/-- `calc_cubic_root` composed with differentiable coefficient maps has the derivative
+    `∂y/∂a·a' + ∂y/∂b·b' + ∂y/∂c·c'` with `(∂y/∂a, ∂y/∂b, ∂y/∂c) = calc_cubic_root_derivatives(a, b, c, k)`:
+    the code's chain rule is the TRUE derivative of the code's root, on both branches, off the band. -/
+theorem cubic_root_hasDerivAt (A B C : ℝ → ℝ) (a' b' c' t : ℝ) (k : Nat) (hA : HasDerivAt A a' t)
+    (hB : HasDerivAt B b' t) (hC : HasDerivAt C c' t) (hdet : cubDet (A t) (B t) (C t) ≠ 0)
+    (hreg : regularised (A t) (B t) (C t) = false) :
+    HasDerivAt (fun s => calcCubicRoot (A s) (B s) (C s) k)
+      ((calcCubicRootDerivs (A t) (B t) (C t) k).1 * a' + (calcCubicRootDerivs (A t) (B t) (C t) k).2.1 * b'
+        + (calcCubicRootDerivs (A t) (B t) (C t) k).2.2 * c') t := by
+  rcases lt_or_gt_of_ne hdet with h | h
+  · exact trig_root_hasDerivAt A B C a' b' c' t k hA hB hC h
+  · exact cardano_root_hasDerivAt A B C a' b' c' t k hA hB hC h hreg
+
+
+/-- non-vacuity: `y³ − 3y + t` at `t = 0` (`det = −1 < 0`) -/
+example : HasDerivAt (fun _ : ℝ => (0:ℝ)) 0 0 ∧ HasDerivAt (fun _ : ℝ => (-3:ℝ)) 0 0 ∧ HasDerivAt (fun s : ℝ => s) 1 0 ∧
+    cubDet (0:ℝ) (-3) 0 ≠ 0 ∧ regularised (0:ℝ) (-3) 0 = false :=
+  have h : cubDet (0:ℝ) (-3) 0 < 0 := by simp only [cubDet, cubP, cubQ]; norm_num
+  ⟨hasDerivAt_const _ _, hasDerivAt_const _ _, hasDerivAt_id' 0, h.ne, trig_band_free _ _ _ h⟩
+
+set_option linter.unusedSimpArgs false
+
+/-- row `Lp` of the code's Jacobian of this cubic model is the partial derivative of the model function w.r.t. `Lp` (both branches, off the regularised band) -/
+theorem OF.jac_Lp_hasDerivAt (d Lp Lc St kT : ℝ) (hLp : 0 < Lp) (hLc : 0 < Lc) (hSt : 0 < St) (hkT : 0 < kT)
+    (hdet : cubDet (OF.a d Lp Lc St kT) (OF.b d Lp Lc St kT) (OF.c d Lp Lc St kT) ≠ 0)
+    (hreg : regularised (OF.a d Lp Lc St kT) (OF.b d Lp Lc St kT) (OF.c d Lp Lc St kT) = false) :
+    HasDerivAt (fun v => OF.val d v Lc St kT) ((OF.jac d Lp Lc St kT).getD 0 0) Lp := by
+  have h := cubic_root_hasDerivAt (fun v => OF.a d v Lc St kT) (fun v => OF.b d v Lc St kT) (fun v => OF.c d v Lc St kT)
+    _ _ _ Lp 2 (OF.a_Lp d Lp Lc St kT) (OF.b_Lp d Lp Lc St kT) (OF.c_Lp d Lp Lc St kT hLp hLc hSt hkT) hdet hreg
+  refine h.congr_deriv ?_
+  simp only [OF.jac, OF.jacWith, OF.der, OF.derWith, List.getD_cons_succ, List.getD_cons_zero]
+  all_goals
+    generalize calcCubicRootDerivs (OF.a d Lp Lc St kT) (OF.b d Lp Lc St kT) (OF.c d Lp Lc St kT) 2 = r
+    obtain ⟨ya, yb, yc⟩ := r
+    first | (simp only []; done) | (simp only []; ring)
+
+/-- row `Lc` of the code's Jacobian of this cubic model is the partial derivative of the model function w.r.t. `Lc` (both branches, off the regularised band) -/
+theorem OF.jac_Lc_hasDerivAt (d Lp Lc St kT : ℝ) (hLp : 0 < Lp) (hLc : 0 < Lc) (hSt : 0 < St) (hkT : 0 < kT)
+    (hdet : cubDet (OF.a d Lp Lc St kT) (OF.b d Lp Lc St kT) (OF.c d Lp Lc St kT) ≠ 0)
+    (hreg : regularised (OF.a d Lp Lc St kT) (OF.b d Lp Lc St kT) (OF.c d Lp Lc St kT) = false) :
+    HasDerivAt (fun v => OF.val d Lp v St kT) ((OF.jac d Lp Lc St kT).getD 1 0) Lc := by
+  have h := cubic_root_hasDerivAt (fun v => OF.a d Lp v St kT) (fun v => OF.b d Lp v St kT) (fun v => OF.c d Lp v St kT)
+    _ _ _ Lc 2 (OF.a_Lc d Lp Lc St kT hLp hLc hSt hkT) (OF.b_Lc d Lp Lc St kT hLp hLc hSt hkT) (OF.c_Lc d Lp Lc St kT) hdet hreg
+  refine h.congr_deriv ?_
+  simp only [OF.jac, OF.jacWith, OF.der, OF.derWith, List.getD_cons_succ, List.getD_cons_zero]
+  all_goals
+    generalize calcCubicRootDerivs (OF.a d Lp Lc St kT) (OF.b d Lp Lc St kT) (OF.c d Lp Lc St kT) 2 = r
+    obtain ⟨ya, yb, yc⟩ := r
+    first | (simp only []; done) | (simp only []; ring)
+
+/-- row `St` of the code's Jacobian of this cubic model is the partial derivative of the model function w.r.t. `St` (both branches, off the regularised band) -/
+theorem OF.jac_St_hasDerivAt (d Lp Lc St kT : ℝ) (hLp : 0 < Lp) (hLc : 0 < Lc) (hSt : 0 < St) (hkT : 0 < kT)
+    (hdet : cubDet (OF.a d Lp Lc St kT) (OF.b d Lp Lc St kT) (OF.c d Lp Lc St kT) ≠ 0)
+    (hreg : regularised (OF.a d Lp Lc St kT) (OF.b d Lp Lc St kT) (OF.c d Lp Lc St kT) = false) :
+    HasDerivAt (fun v => OF.val d Lp Lc v kT) ((OF.jac d Lp Lc St kT).getD 2 0) St := by
+  have h := cubic_root_hasDerivAt (fun v => OF.a d Lp Lc v kT) (fun v => OF.b d Lp Lc v kT) (fun v => OF.c d Lp Lc v kT)
+    _ _ _ St 2 (OF.a_St d Lp Lc St kT hLp hLc hSt hkT) (OF.b_St d Lp Lc St kT hLp hLc hSt hkT) (OF.c_St d Lp Lc St kT hLp hLc hSt hkT) hdet hreg
+  refine h.congr_deriv ?_
+  simp only [OF.jac, OF.jacWith, OF.der, OF.derWith, List.getD_cons_succ, List.getD_cons_zero]
+  all_goals
+    generalize calcCubicRootDerivs (OF.a d Lp Lc St kT) (OF.b d Lp Lc St kT) (OF.c d Lp Lc St kT) 2 = r
+    obtain ⟨ya, yb, yc⟩ := r
+    first | (simp only []; done) | (simp only []; ring)
+
+/-- row `kT` of the code's Jacobian of this cubic model is the partial derivative of the model function w.r.t. `kT` (both branches, off the regularised band) -/
+theorem OF.jac_kT_hasDerivAt (d Lp Lc St kT : ℝ) (hLp : 0 < Lp) (hLc : 0 < Lc) (hSt : 0 < St) (hkT : 0 < kT)
+    (hdet : cubDet (OF.a d Lp Lc St kT) (OF.b d Lp Lc St kT) (OF.c d Lp Lc St kT) ≠ 0)
+    (hreg : regularised (OF.a d Lp Lc St kT) (OF.b d Lp Lc St kT) (OF.c d Lp Lc St kT) = false) :
+    HasDerivAt (fun v => OF.val d Lp Lc St v) ((OF.jac d Lp Lc St kT).getD 3 0) kT := by
+  have h := cubic_root_hasDerivAt (fun v => OF.a d Lp Lc St v) (fun v => OF.b d Lp Lc St v) (fun v => OF.c d Lp Lc St v)
+    _ _ _ kT 2 (OF.a_kT d Lp Lc St kT) (OF.b_kT d Lp Lc St kT) (OF.c_kT d Lp Lc St kT hLp hLc hSt hkT) hdet hreg
+  refine h.congr_deriv ?_
+  simp only [OF.jac, OF.jacWith, OF.der, OF.derWith, List.getD_cons_succ, List.getD_cons_zero]
+  all_goals
+    generalize calcCubicRootDerivs (OF.a d Lp Lc St kT) (OF.b d Lp Lc St kT) (OF.c d Lp Lc St kT) 2 = r
+    obtain ⟨ya, yb, yc⟩ := r
+    first | (simp only []; done) | (simp only []; ring)
+
+/-- the code's derivative of this cubic model is the derivative of the model function w.r.t. the independent variable `d` (both branches, off the regularised band) -/
+theorem OF.der_hasDerivAt (d Lp Lc St kT : ℝ) (hLp : 0 < Lp) (hLc : 0 < Lc) (hSt : 0 < St) (hkT : 0 < kT)
+    (hdet : cubDet (OF.a d Lp Lc St kT) (OF.b d Lp Lc St kT) (OF.c d Lp Lc St kT) ≠ 0)
+    (hreg : regularised (OF.a d Lp Lc St kT) (OF.b d Lp Lc St kT) (OF.c d Lp Lc St kT) = false) :
+    HasDerivAt (fun v => OF.val v Lp Lc St kT) (OF.der d Lp Lc St kT) d := by
+  have h := cubic_root_hasDerivAt (fun v => OF.a v Lp Lc St kT) (fun v => OF.b v Lp Lc St kT) (fun v => OF.c v Lp Lc St kT)
+    _ _ _ d 2 (OF.a_d d Lp Lc St kT hLp hLc hSt hkT) (OF.b_d d Lp Lc St kT hLp hLc hSt hkT) (OF.c_d d Lp Lc St kT) hdet hreg
+  refine h.congr_deriv ?_
+  simp only [OF.jac, OF.jacWith, OF.der, OF.derWith, List.getD_cons_succ, List.getD_cons_zero]
+  all_goals
+    generalize calcCubicRootDerivs (OF.a d Lp Lc St kT) (OF.b d Lp Lc St kT) (OF.c d Lp Lc St kT) 2 = r
+    obtain ⟨ya, yb, yc⟩ := r
+    first | (simp only []; done) | (simp only []; ring)
+
+/-- non-vacuity of the `OF` rows: positive parameters with `det < 0`, off the band -/
+example : cubDet (α := ℝ) (OF.a 1 (1/2) (1/2) 2 (1/2)) (OF.b 1 (1/2) (1/2) 2 (1/2)) (OF.c 1 (1/2) (1/2) 2 (1/2)) ≠ 0 ∧ regularised (α := ℝ) (OF.a 1 (1/2) (1/2) 2 (1/2)) (OF.b 1 (1/2) (1/2) 2 (1/2)) (OF.c 1 (1/2) (1/2) 2 (1/2)) = false :=
+  have h : cubDet (α := ℝ) (OF.a 1 (1/2) (1/2) 2 (1/2)) (OF.b 1 (1/2) (1/2) 2 (1/2)) (OF.c 1 (1/2) (1/2) 2 (1/2)) < 0 := by
+    simp only [OF.a, OF.b, OF.c, cubDet, cubP, cubQ, RealLike.sq, RealLike.cube]; norm_num
+  ⟨h.ne, trig_band_free _ _ _ h⟩
+
+/-- row `Lp` of the code's Jacobian of this cubic model is the partial derivative of the model function w.r.t. `Lp` (both branches, off the regularised band) -/
+theorem WD.jac_Lp_hasDerivAt (f Lp Lc kT : ℝ) (hLp : 0 < Lp) (hLc : 0 < Lc) (hkT : 0 < kT)
+    (hdet : cubDet (WD.a f Lp Lc kT) (WD.b f Lp Lc kT) (WD.c f Lp Lc kT) ≠ 0)
+    (hreg : regularised (WD.a f Lp Lc kT) (WD.b f Lp Lc kT) (WD.c f Lp Lc kT) = false) :
+    HasDerivAt (fun v => WD.val f v Lc kT) ((WD.jac f Lp Lc kT).getD 0 0) Lp := by
+  have h := cubic_root_hasDerivAt (fun v => WD.a f v Lc kT) (fun v => WD.b f v Lc kT) (fun v => WD.c f v Lc kT)
+    _ _ _ Lp 1 (WD.a_Lp f Lp Lc kT hLp hLc hkT) (WD.b_Lp f Lp Lc kT hLp hLc hkT) (WD.c_Lp f Lp Lc kT hLp hLc hkT) hdet hreg
+  refine h.congr_deriv ?_
+  simp only [WD.jac, WD.jacWith, WD.der, WD.derWith, List.getD_cons_succ, List.getD_cons_zero]
+  all_goals
+    generalize calcCubicRootDerivs (WD.a f Lp Lc kT) (WD.b f Lp Lc kT) (WD.c f Lp Lc kT) 1 = r
+    obtain ⟨ya, yb, yc⟩ := r
+    first | (simp only []; done) | (simp only []; ring)
+
+/-- row `Lc` of the code's Jacobian of this cubic model is the partial derivative of the model function w.r.t. `Lc` (both branches, off the regularised band) -/
+theorem WD.jac_Lc_hasDerivAt (f Lp Lc kT : ℝ) (hLp : 0 < Lp) (hLc : 0 < Lc) (hkT : 0 < kT)
+    (hdet : cubDet (WD.a f Lp Lc kT) (WD.b f Lp Lc kT) (WD.c f Lp Lc kT) ≠ 0)
+    (hreg : regularised (WD.a f Lp Lc kT) (WD.b f Lp Lc kT) (WD.c f Lp Lc kT) = false) :
+    HasDerivAt (fun v => WD.val f Lp v kT) ((WD.jac f Lp Lc kT).getD 1 0) Lc := by
+  have h := cubic_root_hasDerivAt (fun v => WD.a f Lp v kT) (fun v => WD.b f Lp v kT) (fun v => WD.c f Lp v kT)
+    _ _ _ Lc 1 (WD.a_Lc f Lp Lc kT hLp hLc hkT) (WD.b_Lc f Lp Lc kT hLp hLc hkT) (WD.c_Lc f Lp Lc kT hLp hLc hkT) hdet hreg
+  refine h.congr_deriv ?_
+  simp only [WD.jac, WD.jacWith, WD.der, WD.derWith, List.getD_cons_succ, List.getD_cons_zero]
+  all_goals
+    generalize calcCubicRootDerivs (WD.a f Lp Lc kT) (WD.b f Lp Lc kT) (WD.c f Lp Lc kT) 1 = r
+    obtain ⟨ya, yb, yc⟩ := r
+    first | (simp only []; done) | (simp only []; ring)
+
+/-- row `kT` of the code's Jacobian of this cubic model is the partial derivative of the model function w.r.t. `kT` (both branches, off the regularised band) -/
+theorem WD.jac_kT_hasDerivAt (f Lp Lc kT : ℝ) (hLp : 0 < Lp) (hLc : 0 < Lc) (hkT : 0 < kT)
+    (hdet : cubDet (WD.a f Lp Lc kT) (WD.b f Lp Lc kT) (WD.c f Lp Lc kT) ≠ 0)
+    (hreg : regularised (WD.a f Lp Lc kT) (WD.b f Lp Lc kT) (WD.c f Lp Lc kT) = false) :
+    HasDerivAt (fun v => WD.val f Lp Lc v) ((WD.jac f Lp Lc kT).getD 2 0) kT := by
+  have h := cubic_root_hasDerivAt (fun v => WD.a f Lp Lc v) (fun v => WD.b f Lp Lc v) (fun v => WD.c f Lp Lc v)
+    _ _ _ kT 1 (WD.a_kT f Lp Lc kT hLp hLc hkT) (WD.b_kT f Lp Lc kT hLp hLc hkT) (WD.c_kT f Lp Lc kT hLp hLc hkT) hdet hreg
+  refine h.congr_deriv ?_
+  simp only [WD.jac, WD.jacWith, WD.der, WD.derWith, List.getD_cons_succ, List.getD_cons_zero]
+  all_goals
+    generalize calcCubicRootDerivs (WD.a f Lp Lc kT) (WD.b f Lp Lc kT) (WD.c f Lp Lc kT) 1 = r
+    obtain ⟨ya, yb, yc⟩ := r
+    first | (simp only []; done) | (simp only []; ring)
+
+/-- the code's derivative of this cubic model is the derivative of the model function w.r.t. the independent variable `f` (both branches, off the regularised band) -/
+theorem WD.der_hasDerivAt (f Lp Lc kT : ℝ) (hLp : 0 < Lp) (hLc : 0 < Lc) (hkT : 0 < kT)
+    (hdet : cubDet (WD.a f Lp Lc kT) (WD.b f Lp Lc kT) (WD.c f Lp Lc kT) ≠ 0)
+    (hreg : regularised (WD.a f Lp Lc kT) (WD.b f Lp Lc kT) (WD.c f Lp Lc kT) = false) :
+    HasDerivAt (fun v => WD.val v Lp Lc kT) (WD.der f Lp Lc kT) f := by
+  have h := cubic_root_hasDerivAt (fun v => WD.a v Lp Lc kT) (fun v => WD.b v Lp Lc kT) (fun v => WD.c v Lp Lc kT)
+    _ _ _ f 1 (WD.a_f f Lp Lc kT hLp hLc hkT) (WD.b_f f Lp Lc kT hLp hLc hkT) (WD.c_f f Lp Lc kT hLp hLc hkT) hdet hreg
+  refine h.congr_deriv ?_
+  simp only [WD.jac, WD.jacWith, WD.der, WD.derWith, List.getD_cons_succ, List.getD_cons_zero]
+  all_goals
+    generalize calcCubicRootDerivs (WD.a f Lp Lc kT) (WD.b f Lp Lc kT) (WD.c f Lp Lc kT) 1 = r
+    obtain ⟨ya, yb, yc⟩ := r
+    first | (simp only []; done) | (simp only []; ring)
+
+/-- non-vacuity of the `WD` rows: positive parameters with `det < 0`, off the band -/
+example : cubDet (α := ℝ) (WD.a (1/2) 2 1 (1/2)) (WD.b (1/2) 2 1 (1/2)) (WD.c (1/2) 2 1 (1/2)) ≠ 0 ∧ regularised (α := ℝ) (WD.a (1/2) 2 1 (1/2)) (WD.b (1/2) 2 1 (1/2)) (WD.c (1/2) 2 1 (1/2)) = false :=
+  have h : cubDet (α := ℝ) (WD.a (1/2) 2 1 (1/2)) (WD.b (1/2) 2 1 (1/2)) (WD.c (1/2) 2 1 (1/2)) < 0 := by
+    simp only [WD.a, WD.b, WD.c, cubDet, cubP, cubQ, RealLike.sq, RealLike.cube]; norm_num
+  ⟨h.ne, trig_band_free _ _ _ h⟩
+
+/-- row `Lp` of the code's Jacobian of this cubic model is the partial derivative of the model function w.r.t. `Lp` (both branches, off the regularised band) -/
+theorem EF.jac_Lp_hasDerivAt (d Lp Lc St kT : ℝ) (hLp : 0 < Lp) (hLc : 0 < Lc) (hSt : 0 < St) (hkT : 0 < kT)
+    (hdet : cubDet (EF.a d Lp Lc St kT) (EF.b d Lp Lc St kT) (EF.c d Lp Lc St kT) ≠ 0)
+    (hreg : regularised (EF.a d Lp Lc St kT) (EF.b d Lp Lc St kT) (EF.c d Lp Lc St kT) = false) :
+    HasDerivAt (fun v => EF.val d v Lc St kT) ((EF.jac d Lp Lc St kT).getD 0 0) Lp := by
+  have h := cubic_root_hasDerivAt (fun v => EF.a d v Lc St kT) (fun v => EF.b d v Lc St kT) (fun v => EF.c d v Lc St kT)
+    _ _ _ Lp 2 (EF.a_Lp d Lp Lc St kT hLp hLc hSt hkT) (EF.b_Lp d Lp Lc St kT hLp hLc hSt hkT) (EF.c_Lp d Lp Lc St kT hLp hLc hSt hkT) hdet hreg
+  refine h.congr_deriv ?_
+  simp only [EF.jac, EF.jacWith, EF.der, EF.derWith, List.getD_cons_succ, List.getD_cons_zero]
+  all_goals
+    generalize calcCubicRootDerivs (EF.a d Lp Lc St kT) (EF.b d Lp Lc St kT) (EF.c d Lp Lc St kT) 2 = r
+    obtain ⟨ya, yb, yc⟩ := r
+    first | (simp only []; done) | (simp only []; ring)
+
+/-- row `Lc` of the code's Jacobian of this cubic model is the partial derivative of the model function w.r.t. `Lc` (both branches, off the regularised band) -/
+theorem EF.jac_Lc_hasDerivAt (d Lp Lc St kT : ℝ) (hLp : 0 < Lp) (hLc : 0 < Lc) (hSt : 0 < St) (hkT : 0 < kT)
+    (hdet : cubDet (EF.a d Lp Lc St kT) (EF.b d Lp Lc St kT) (EF.c d Lp Lc St kT) ≠ 0)
+    (hreg : regularised (EF.a d Lp Lc St kT) (EF.b d Lp Lc St kT) (EF.c d Lp Lc St kT) = false) :
+    HasDerivAt (fun v => EF.val d Lp v St kT) ((EF.jac d Lp Lc St kT).getD 1 0) Lc := by
+  have h := cubic_root_hasDerivAt (fun v => EF.a d Lp v St kT) (fun v => EF.b d Lp v St kT) (fun v => EF.c d Lp v St kT)
+    _ _ _ Lc 2 (EF.a_Lc d Lp Lc St kT hLp hLc hSt hkT) (EF.b_Lc d Lp Lc St kT hLp hLc hSt hkT) (EF.c_Lc d Lp Lc St kT hLp hLc hSt hkT) hdet hreg
+  refine h.congr_deriv ?_
+  simp only [EF.jac, EF.jacWith, EF.der, EF.derWith, List.getD_cons_succ, List.getD_cons_zero]
+  all_goals
+    generalize calcCubicRootDerivs (EF.a d Lp Lc St kT) (EF.b d Lp Lc St kT) (EF.c d Lp Lc St kT) 2 = r
+    obtain ⟨ya, yb, yc⟩ := r
+    first | (simp only []; done) | (simp only []; ring)
+
+/-- row `St` of the code's Jacobian of this cubic model is the partial derivative of the model function w.r.t. `St` (both branches, off the regularised band) -/
+theorem EF.jac_St_hasDerivAt (d Lp Lc St kT : ℝ) (hLp : 0 < Lp) (hLc : 0 < Lc) (hSt : 0 < St) (hkT : 0 < kT)
+    (hdet : cubDet (EF.a d Lp Lc St kT) (EF.b d Lp Lc St kT) (EF.c d Lp Lc St kT) ≠ 0)
+    (hreg : regularised (EF.a d Lp Lc St kT) (EF.b d Lp Lc St kT) (EF.c d Lp Lc St kT) = false) :
+    HasDerivAt (fun v => EF.val d Lp Lc v kT) ((EF.jac d Lp Lc St kT).getD 2 0) St := by
+  have h := cubic_root_hasDerivAt (fun v => EF.a d Lp Lc v kT) (fun v => EF.b d Lp Lc v kT) (fun v => EF.c d Lp Lc v kT)
+    _ _ _ St 2 (EF.a_St d Lp Lc St kT hLp hLc hSt hkT) (EF.b_St d Lp Lc St kT hLp hLc hSt hkT) (EF.c_St d Lp Lc St kT hLp hLc hSt hkT) hdet hreg
+  refine h.congr_deriv ?_
+  simp only [EF.jac, EF.jacWith, EF.der, EF.derWith, List.getD_cons_succ, List.getD_cons_zero]
+  all_goals
+    generalize calcCubicRootDerivs (EF.a d Lp Lc St kT) (EF.b d Lp Lc St kT) (EF.c d Lp Lc St kT) 2 = r
+    obtain ⟨ya, yb, yc⟩ := r
+    first | (simp only []; done) | (simp only []; ring)
+
+/-- row `kT` of the code's Jacobian of this cubic model is the partial derivative of the model function w.r.t. `kT` (both branches, off the regularised band) -/
+theorem EF.jac_kT_hasDerivAt (d Lp Lc St kT : ℝ) (hLp : 0 < Lp) (hLc : 0 < Lc) (hSt : 0 < St) (hkT : 0 < kT)
+    (hdet : cubDet (EF.a d Lp Lc St kT) (EF.b d Lp Lc St kT) (EF.c d Lp Lc St kT) ≠ 0)
+    (hreg : regularised (EF.a d Lp Lc St kT) (EF.b d Lp Lc St kT) (EF.c d Lp Lc St kT) = false) :
+    HasDerivAt (fun v => EF.val d Lp Lc St v) ((EF.jac d Lp Lc St kT).getD 3 0) kT := by
+  have h := cubic_root_hasDerivAt (fun v => EF.a d Lp Lc St v) (fun v => EF.b d Lp Lc St v) (fun v => EF.c d Lp Lc St v)
+    _ _ _ kT 2 (EF.a_kT d Lp Lc St kT hLp hLc hSt hkT) (EF.b_kT d Lp Lc St kT hLp hLc hSt hkT) (EF.c_kT d Lp Lc St kT hLp hLc hSt hkT) hdet hreg
+  refine h.congr_deriv ?_
+  simp only [EF.jac, EF.jacWith, EF.der, EF.derWith, List.getD_cons_succ, List.getD_cons_zero]
+  all_goals
+    generalize calcCubicRootDerivs (EF.a d Lp Lc St kT) (EF.b d Lp Lc St kT) (EF.c d Lp Lc St kT) 2 = r
+    obtain ⟨ya, yb, yc⟩ := r
+    first | (simp only []; done) | (simp only []; ring)
+
+/-- the code's derivative of this cubic model is the derivative of the model function w.r.t. the independent variable `d` (both branches, off the regularised band) -/
+theorem EF.der_hasDerivAt (d Lp Lc St kT : ℝ) (hLp : 0 < Lp) (hLc : 0 < Lc) (hSt : 0 < St) (hkT : 0 < kT)
+    (hdet : cubDet (EF.a d Lp Lc St kT) (EF.b d Lp Lc St kT) (EF.c d Lp Lc St kT) ≠ 0)
+    (hreg : regularised (EF.a d Lp Lc St kT) (EF.b d Lp Lc St kT) (EF.c d Lp Lc St kT) = false) :
+    HasDerivAt (fun v => EF.val v Lp Lc St kT) (EF.der d Lp Lc St kT) d := by
+  have h := cubic_root_hasDerivAt (fun v => EF.a v Lp Lc St kT) (fun v => EF.b v Lp Lc St kT) (fun v => EF.c v Lp Lc St kT)
+    _ _ _ d 2 (EF.a_d d Lp Lc St kT hLp hLc hSt hkT) (EF.b_d d Lp Lc St kT hLp hLc hSt hkT) (EF.c_d d Lp Lc St kT hLp hLc hSt hkT) hdet hreg
+  refine h.congr_deriv ?_
+  simp only [EF.jac, EF.jacWith, EF.der, EF.derWith, List.getD_cons_succ, List.getD_cons_zero]
+  all_goals
+    generalize calcCubicRootDerivs (EF.a d Lp Lc St kT) (EF.b d Lp Lc St kT) (EF.c d Lp Lc St kT) 2 = r
+    obtain ⟨ya, yb, yc⟩ := r
+    first | (simp only []; done) | (simp only []; ring)
+
+/-- non-vacuity of the `EF` rows: positive parameters with `det < 0`, off the band -/
+example : cubDet (α := ℝ) (EF.a 1 1 (1/2) 3 (1/2)) (EF.b 1 1 (1/2) 3 (1/2)) (EF.c 1 1 (1/2) 3 (1/2)) ≠ 0 ∧ regularised (α := ℝ) (EF.a 1 1 (1/2) 3 (1/2)) (EF.b 1 1 (1/2) 3 (1/2)) (EF.c 1 1 (1/2) 3 (1/2)) = false :=
+  have h : cubDet (α := ℝ) (EF.a 1 1 (1/2) 3 (1/2)) (EF.b 1 1 (1/2) 3 (1/2)) (EF.c 1 1 (1/2) 3 (1/2)) < 0 := by
+    simp only [EF.a, EF.b, EF.c, cubDet, cubP, cubQ, RealLike.sq, RealLike.cube]; norm_num
+  ⟨h.ne, trig_band_free _ _ _ h⟩
+
+/-- row `Lp` of the code's Jacobian of this cubic model is the partial derivative of the model function w.r.t. `Lp` (both branches, off the regularised band) -/
+theorem ED.jac_Lp_hasDerivAt (f Lp Lc St kT : ℝ) (hLp : 0 < Lp) (hLc : 0 < Lc) (hSt : 0 < St) (hkT : 0 < kT)
+    (hdet : cubDet (ED.a f Lp Lc St kT) (ED.b f Lp Lc St kT) (ED.c f Lp Lc St kT) ≠ 0)
+    (hreg : regularised (ED.a f Lp Lc St kT) (ED.b f Lp Lc St kT) (ED.c f Lp Lc St kT) = false) :
+    HasDerivAt (fun v => ED.val f v Lc St kT) ((ED.jac f Lp Lc St kT).getD 0 0) Lp := by
+  have h := cubic_root_hasDerivAt (fun v => ED.a f v Lc St kT) (fun v => ED.b f v Lc St kT) (fun v => ED.c f v Lc St kT)
+    _ _ _ Lp 1 (ED.a_Lp f Lp Lc St kT hLp hLc hSt hkT) (ED.b_Lp f Lp Lc St kT hLp hLc hSt hkT) (ED.c_Lp f Lp Lc St kT hLp hLc hSt hkT) hdet hreg
+  refine h.congr_deriv ?_
+  simp only [ED.jac, ED.jacWith, ED.der, ED.derWith, List.getD_cons_succ, List.getD_cons_zero]
+  all_goals
+    generalize calcCubicRootDerivs (ED.a f Lp Lc St kT) (ED.b f Lp Lc St kT) (ED.c f Lp Lc St kT) 1 = r
+    obtain ⟨ya, yb, yc⟩ := r
+    first | (simp only []; done) | (simp only []; ring)
+
+/-- row `Lc` of the code's Jacobian of this cubic model is the partial derivative of the model function w.r.t. `Lc` (both branches, off the regularised band) -/
+theorem ED.jac_Lc_hasDerivAt (f Lp Lc St kT : ℝ) (hLp : 0 < Lp) (hLc : 0 < Lc) (hSt : 0 < St) (hkT : 0 < kT)
+    (hdet : cubDet (ED.a f Lp Lc St kT) (ED.b f Lp Lc St kT) (ED.c f Lp Lc St kT) ≠ 0)
+    (hreg : regularised (ED.a f Lp Lc St kT) (ED.b f Lp Lc St kT) (ED.c f Lp Lc St kT) = false) :
+    HasDerivAt (fun v => ED.val f Lp v St kT) ((ED.jac f Lp Lc St kT).getD 1 0) Lc := by
+  have h := cubic_root_hasDerivAt (fun v => ED.a f Lp v St kT) (fun v => ED.b f Lp v St kT) (fun v => ED.c f Lp v St kT)
+    _ _ _ Lc 1 (ED.a_Lc f Lp Lc St kT hLp hLc hSt hkT) (ED.b_Lc f Lp Lc St kT hLp hLc hSt hkT) (ED.c_Lc f Lp Lc St kT hLp hLc hSt hkT) hdet hreg
+  refine h.congr_deriv ?_
+  simp only [ED.jac, ED.jacWith, ED.der, ED.derWith, List.getD_cons_succ, List.getD_cons_zero]
+  all_goals
+    generalize calcCubicRootDerivs (ED.a f Lp Lc St kT) (ED.b f Lp Lc St kT) (ED.c f Lp Lc St kT) 1 = r
+    obtain ⟨ya, yb, yc⟩ := r
+    first | (simp only []; done) | (simp only []; ring)
+
+/-- row `St` of the code's Jacobian of this cubic model is the partial derivative of the model function w.r.t. `St` (both branches, off the regularised band) -/
+theorem ED.jac_St_hasDerivAt (f Lp Lc St kT : ℝ) (hLp : 0 < Lp) (hLc : 0 < Lc) (hSt : 0 < St) (hkT : 0 < kT)
+    (hdet : cubDet (ED.a f Lp Lc St kT) (ED.b f Lp Lc St kT) (ED.c f Lp Lc St kT) ≠ 0)
+    (hreg : regularised (ED.a f Lp Lc St kT) (ED.b f Lp Lc St kT) (ED.c f Lp Lc St kT) = false) :
+    HasDerivAt (fun v => ED.val f Lp Lc v kT) ((ED.jac f Lp Lc St kT).getD 2 0) St := by
+  have h := cubic_root_hasDerivAt (fun v => ED.a f Lp Lc v kT) (fun v => ED.b f Lp Lc v kT) (fun v => ED.c f Lp Lc v kT)
+    _ _ _ St 1 (ED.a_St f Lp Lc St kT hLp hLc hSt hkT) (ED.b_St f Lp Lc St kT hLp hLc hSt hkT) (ED.c_St f Lp Lc St kT hLp hLc hSt hkT) hdet hreg
+  refine h.congr_deriv ?_
+  simp only [ED.jac, ED.jacWith, ED.der, ED.derWith, List.getD_cons_succ, List.getD_cons_zero]
+  all_goals
+    generalize calcCubicRootDerivs (ED.a f Lp Lc St kT) (ED.b f Lp Lc St kT) (ED.c f Lp Lc St kT) 1 = r
+    obtain ⟨ya, yb, yc⟩ := r
+    first | (simp only []; done) | (simp only []; ring)
+
+/-- row `kT` of the code's Jacobian of this cubic model is the partial derivative of the model function w.r.t. `kT` (both branches, off the regularised band) -/
+theorem ED.jac_kT_hasDerivAt (f Lp Lc St kT : ℝ) (hLp : 0 < Lp) (hLc : 0 < Lc) (hSt : 0 < St) (hkT : 0 < kT)
+    (hdet : cubDet (ED.a f Lp Lc St kT) (ED.b f Lp Lc St kT) (ED.c f Lp Lc St kT) ≠ 0)
+    (hreg : regularised (ED.a f Lp Lc St kT) (ED.b f Lp Lc St kT) (ED.c f Lp Lc St kT) = false) :
+    HasDerivAt (fun v => ED.val f Lp Lc St v) ((ED.jac f Lp Lc St kT).getD 3 0) kT := by
+  have h := cubic_root_hasDerivAt (fun v => ED.a f Lp Lc St v) (fun v => ED.b f Lp Lc St v) (fun v => ED.c f Lp Lc St v)
+    _ _ _ kT 1 (ED.a_kT f Lp Lc St kT hLp hLc hSt hkT) (ED.b_kT f Lp Lc St kT hLp hLc hSt hkT) (ED.c_kT f Lp Lc St kT hLp hLc hSt hkT) hdet hreg
+  refine h.congr_deriv ?_
+  simp only [ED.jac, ED.jacWith, ED.der, ED.derWith, List.getD_cons_succ, List.getD_cons_zero]
+  all_goals
+    generalize calcCubicRootDerivs (ED.a f Lp Lc St kT) (ED.b f Lp Lc St kT) (ED.c f Lp Lc St kT) 1 = r
+    obtain ⟨ya, yb, yc⟩ := r
+    first | (simp only []; done) | (simp only []; ring)
+
+/-- the code's derivative of this cubic model is the derivative of the model function w.r.t. the independent variable `f` (both branches, off the regularised band) -/
+theorem ED.der_hasDerivAt (f Lp Lc St kT : ℝ) (hLp : 0 < Lp) (hLc : 0 < Lc) (hSt : 0 < St) (hkT : 0 < kT)
+    (hdet : cubDet (ED.a f Lp Lc St kT) (ED.b f Lp Lc St kT) (ED.c f Lp Lc St kT) ≠ 0)
+    (hreg : regularised (ED.a f Lp Lc St kT) (ED.b f Lp Lc St kT) (ED.c f Lp Lc St kT) = false) :
+    HasDerivAt (fun v => ED.val v Lp Lc St kT) (ED.der f Lp Lc St kT) f := by
+  have h := cubic_root_hasDerivAt (fun v => ED.a v Lp Lc St kT) (fun v => ED.b v Lp Lc St kT) (fun v => ED.c v Lp Lc St kT)
+    _ _ _ f 1 (ED.a_f f Lp Lc St kT hLp hLc hSt hkT) (ED.b_f f Lp Lc St kT hLp hLc hSt hkT) (ED.c_f f Lp Lc St kT hLp hLc hSt hkT) hdet hreg
+  refine h.congr_deriv ?_
+  simp only [ED.jac, ED.jacWith, ED.der, ED.derWith, List.getD_cons_succ, List.getD_cons_zero]
+  all_goals
+    generalize calcCubicRootDerivs (ED.a f Lp Lc St kT) (ED.b f Lp Lc St kT) (ED.c f Lp Lc St kT) 1 = r
+    obtain ⟨ya, yb, yc⟩ := r
+    first | (simp only []; done) | (simp only []; ring)
+
+/-- non-vacuity of the `ED` rows: positive parameters with `det < 0`, off the band -/
+example : cubDet (α := ℝ) (ED.a (1/2) 2 (1/2) 1 (1/2)) (ED.b (1/2) 2 (1/2) 1 (1/2)) (ED.c (1/2) 2 (1/2) 1 (1/2)) ≠ 0 ∧ regularised (α := ℝ) (ED.a (1/2) 2 (1/2) 1 (1/2)) (ED.b (1/2) 2 (1/2) 1 (1/2)) (ED.c (1/2) 2 (1/2) 1 (1/2)) = false :=
+  have h : cubDet (α := ℝ) (ED.a (1/2) 2 (1/2) 1 (1/2)) (ED.b (1/2) 2 (1/2) 1 (1/2)) (ED.c (1/2) 2 (1/2) 1 (1/2)) < 0 := by
+    simp only [ED.a, ED.b, ED.c, ED.cpoly, ED.bpoly, cubDet, cubP, cubQ, RealLike.sq, RealLike.cube]; norm_num
+  ⟨h.ne, trig_band_free _ _ _ h⟩
+
+
 /-! ## ext: twistable WLC and extensible FJC, derivative w.r.t. the force -/
 
 /-- `twlc_distance_derivative` is the derivative of `twlc_distance` on either side of the kink
